@@ -49,7 +49,7 @@ package ro
 //@   ensures [error-only-by-cas-winner|C01] called(callfn.onError) ==> cas_ok(status)
 //@   ensures [refused-is-dropped|C01] !cas_ok(status) ==> trace(call.NewNotificationError(err), hook.OnDroppedNotification(ctx, _))
 //@   ensures [delivered-once|C01] cas_ok(status) && !panicked(onError) ==> trace(callfn.onError(ctx, err))
-//@   ensures [panic-unhandled|C07] panicked(onError) ==> trace(callfn.onError(ctx, err), hook.OnUnhandledError(ctx, newObserverError(recoverValueToError(panicval(onError)))))
+//@   ensures [panic-unhandled|C07,C01] panicked(onError) ==> trace(callfn.onError(ctx, err), hook.OnUnhandledError(ctx, newObserverError(recoverValueToError(panicval(onError)))))
 //@   ensures [closed-after|C01] cas_ok(status) ==> o.status == 1
 
 //@ func (*observerImpl).CompleteWithContext
@@ -62,7 +62,7 @@ package ro
 //@   ensures [complete-only-by-cas-winner|C01] called(callfn.onComplete) ==> cas_ok(status)
 //@   ensures [refused-is-dropped|C01] !cas_ok(status) ==> trace(call.NewNotificationComplete(), hook.OnDroppedNotification(ctx, _))
 //@   ensures [delivered-once|C01] cas_ok(status) && !panicked(onComplete) ==> trace(callfn.onComplete(ctx))
-//@   ensures [panic-unhandled|C07] panicked(onComplete) ==> trace(callfn.onComplete(ctx), hook.OnUnhandledError(ctx, newObserverError(recoverValueToError(panicval(onComplete)))))
+//@   ensures [panic-unhandled|C07,C01] panicked(onComplete) ==> trace(callfn.onComplete(ctx), hook.OnUnhandledError(ctx, newObserverError(recoverValueToError(panicval(onComplete)))))
 //@   ensures [closed-after|C01] cas_ok(status) ==> o.status == 2
 
 //@ func (*observerImpl).IsClosed
